@@ -506,3 +506,45 @@ def breaches(prog, convs):
                 bad.append((node, mask, extra))
         out.append((fn, conv, bad))
     return out
+
+
+def return_type_breaches(prog, convs):
+    """A function whose results are told apart by sign (conventions tri: 1 / 0 / -1, neg: negative = failure) must
+    return a signed integer type.  Declared bool (or unsigned) the -1 is converted to true (or a huge count) at the
+    return statement, and every caller's `< 1` / `< 0` test stops seeing the mismatch or the failure - with the
+    call sites textually unchanged.  Also: any library function declared bool that returns an expression whose value
+    can be negative (a propagated verdict) - reported at the return."""
+    from ..ir import is_unsigned_type
+    out = []
+    for q in sorted(prog.funcs):
+        fn = prog.funcs[q]
+        if fn.body is None or not prog.is_lib_unit(fn.unit):
+            continue
+        rt = (fn.rdtype or fn.rtype or '').replace('const ', '').strip()
+        is_bool = rt in ('bool', '_Bool')
+        k2 = '%s::%s' % (fn.unit.split('/')[-1], fn.name)
+        conv = convs.of_func(fn) if (k2 in CONVENTIONS or fn.name in CONVENTIONS) else None
+        if conv in ('tri', 'neg') and (is_bool or is_unsigned_type(fn.rtype, fn.rdtype)):
+            out.append((fn, fn, 'declared %s but its results are told apart by sign (convention %s): the negative result is '
+                        'converted at the return statement and reaches the callers as success' % (rt, conv)))
+            continue
+        if is_bool:
+            eng = Engine(prog, Rule())
+            eng.summary(fn, 0)
+            rec = eng.results[(fn.qname, 0)]
+            for node, mask, ts, here in rec['returns']:
+                if node.e is None:
+                    continue
+                inner = node.e
+                while inner is not None and inner.k == 'cast' and inner.a:
+                    inner = inner.a[0]
+                se = strip(inner)
+                if se is not None and se.k == 'call':
+                    t = prog.resolve_direct(fn, callee_name(se)) if callee_name(se) else None
+                    if t is not None:
+                        m = convs.masks(t)
+                        c2 = convs.of_func(t)
+                        if c2 in ('tri', 'neg') and m & (M1 | NEG):
+                            out.append((fn, node, 'bool function returns %s, whose negative result (%s convention) becomes '
+                                        'true' % (show(se)[:60], c2)))
+    return out
